@@ -4,4 +4,99 @@ import Ccp.Proofs.Range
 namespace Ccp.Intf
 open Ccp.Py
 
+theorem listLt_self (l : List Cell) : listLt l l = .ok false := by
+  induction l with
+  | nil => rfl
+  | cons a as ih => simp [listLt, ih]
+
+theorem strLt_irrefl (u : Str) : strLt u u = false := by
+  induction u with
+  | nil => rfl
+  | cons a as ih => simp [strLt, ih]
+
+/-- which optional components are present -/
+def shape (i : Intf) : Bool × Bool × Bool × Bool × Bool :=
+  (i.slot.isSome, i.card.isSome, i.sub.isSome, i.chan.isSome, i.cls.isSome)
+
+/-- the numeric components in the order slot, card, port, subinterface, channel -/
+def key (i : Intf) : List Nat :=
+  i.slot.toList ++ i.card.toList ++ [i.port] ++ i.sub.toList ++ i.chan.toList
+
+def lexLt : List Nat → List Nat → Bool
+  | [], [] => false
+  | [], _ :: _ => true
+  | _ :: _, [] => false
+  | a :: as, b :: bs => if a = b then lexLt as bs else a < b
+
+def clsLt : Option Str → Option Str → Bool
+  | some u, some v => strLt u v
+  | _, _ => false
+
+theorem lt_same_shape (a b : Intf) (h : shape a = shape b) :
+    lt a b = .ok (if key a = key b then clsLt a.cls b.cls else lexLt (key a) (key b)) := by
+  obtain ⟨pa, sa, sla, ca, pta, sua, cha, cla⟩ := a
+  obtain ⟨pb, sb, slb, cb, ptb, sub, chb, clb⟩ := b
+  simp only [shape, Prod.mk.injEq] at h
+  obtain ⟨h1, h2, h3, h4, h5⟩ := h
+  cases sla <;> cases slb <;> simp at h1 <;>
+  cases ca <;> cases cb <;> simp at h2 <;>
+  cases sua <;> cases sub <;> simp at h3 <;>
+  cases cha <;> cases chb <;> simp at h4 <;>
+  cases cla <;> cases clb <;> simp at h5 <;>
+  simp [lt, sortList, cellOf, listLt, cellLt, key, lexLt, clsLt] <;>
+  grind [strLt_irrefl]
+
+/-! ### ranges -/
+
+/-- the member with the iterated attribute set to `n` -/
+def vary (b : Intf) (a : Attr) (n : Nat) : Intf := setAttr b a (some n)
+
+theorem lt_vary (b : Intf) (a : Attr) (x y : Nat) : lt (vary b a x) (vary b a y) = .ok (decide (x < y)) := by
+  cases a <;> simp [vary, setAttr, lt, sortList, listLt, cellLt, cellOf] <;>
+  intro h <;> simp [h]
+
+theorem eq_vary (b : Intf) (a : Attr) (x y : Nat) : eq (vary b a x) (vary b a y) = decide (x = y) := by
+  cases a <;> simp [vary, setAttr, eq, sortList, cellOf] <;>
+  by_cases h : x = y <;> simp [h]
+
+theorem insertMember_vary (b : Intf) (a : Attr) (x : Nat) (l : List Nat) :
+    insertMember (vary b a x) (l.map (vary b a)) = .ok ((Ccp.Range.insertAsc x l).map (vary b a)) := by
+  induction l with
+  | nil => rfl
+  | cons y ys ih =>
+    simp only [List.map_cons, insertMember, eq_vary, lt_vary, Ccp.Range.insertAsc]
+    by_cases h1 : x = y
+    · subst h1; simp
+    · by_cases h2 : x < y
+      · simp [h1, h2]
+      · simp [h1, h2, ih]
+
+theorem sortedMembers_vary (b : Intf) (a : Attr) (ns : List Nat) :
+    sortedMembers (ns.map (vary b a)) = .ok ((Ccp.Range.sortedSet ns).map (vary b a)) := by
+  induction ns with
+  | nil => rfl
+  | cons n ns ih =>
+    simp only [List.map_cons, sortedMembers, ih]
+    exact insertMember_vary b a n _
+
+theorem pairwise_vary (b : Intf) (a : Attr) (l : List Nat) (h : l.Pairwise (· < ·)) :
+    (l.map (vary b a)).Pairwise (fun x y => lt x y = .ok true) := by
+  rw [List.pairwise_map]
+  exact h.imp (fun {x y} hxy => by simp [lt_vary, hxy])
+
+
+theorem plan_attr (text : Str) (b : Intf) (a : Attr) (ps : List (Option Nat × Option Nat))
+    (h : plan text = .ok (b, a, ps)) : a = iterAttr b := by
+  unfold plan at h
+  split at h
+  · cases h
+  · split at h
+    · cases h
+    · simp only at h
+      split at h
+      · cases h
+      · simp only [Except.ok.injEq, Prod.mk.injEq] at h
+        obtain ⟨h1, h2, _⟩ := h
+        rw [← h1, ← h2]
+
 end Ccp.Intf
